@@ -169,6 +169,7 @@ type TB struct {
 	inprog   map[string]bool
 	cells    map[*ssa.Alloc]*cellInfo
 	ReadOnly func(callee string) bool // external callees that do not write through pointer/slice args
+	curLoad  ssa.Instruction          // the load being resolved (for strong updates by dominating stores)
 }
 
 func NewTB(w *World) *TB {
@@ -268,7 +269,11 @@ func (tb *TB) val(v ssa.Value, e *Env) *Term {
 			if v.CommaOk {
 				return mk("load2", "", tb.Val(v.X, e))
 			}
-			return tb.Load(v.X, e)
+			saved := tb.curLoad
+			tb.curLoad = v
+			r := tb.Load(v.X, e)
+			tb.curLoad = saved
+			return r
 		}
 		return mk("un", v.Op.String(), tb.Val(v.X, e))
 	case *ssa.Convert:
@@ -802,18 +807,71 @@ func pathHasPrefix(p, prefix []string) bool {
 	return true
 }
 
-// cellContent: the join of everything that may be stored at path of alloc a.
+// dominatesInstr: a executes before b on every path reaching b (same function).
+func dominatesInstr(a, b ssa.Instruction) bool {
+	if a == nil || b == nil || a.Parent() != b.Parent() {
+		return false
+	}
+	if a.Block() == b.Block() {
+		return instrIndex(a) < instrIndex(b)
+	}
+	return a.Block().Dominates(b.Block())
+}
+
+func pathCovers(k, q []string) bool { // k is a (wildcard-free) prefix of q
+	if len(k) > len(q) {
+		return false
+	}
+	for i := range k {
+		if k[i] != q[i] || k[i] == "[*]" {
+			return false
+		}
+	}
+	return true
+}
+
+// liveStores: stores that may still be visible at the current load for path q. A store is killed
+// when a later definite store covering q dominates the load (strong update).
+func (tb *TB) liveStores(a *ssa.Alloc, ci *cellInfo, q []string) []storeRec {
+	L := tb.curLoad
+	if L == nil || L.Parent() != a.Parent() {
+		return ci.stores
+	}
+	var out []storeRec
+	for i, s := range ci.stores {
+		killed := false
+		for j, k := range ci.stores {
+			if i == j || k.val == nil || k.ext != "" {
+				continue
+			}
+			if _, isStore := k.in.(*ssa.Store); !isStore {
+				continue
+			}
+			if pathCovers(k.path, q) && dominatesInstr(k.in, L) && dominatesInstr(s.in, k.in) {
+				killed = true
+				break
+			}
+		}
+		if !killed {
+			out = append(out, s)
+		}
+	}
+	return out
+}
+
+// cellContent: the join of everything that may be stored at path of alloc a (visible at the current load).
 func (tb *TB) cellContent(a *ssa.Alloc, at *Term, path []string, e *Env) *Term {
 	if at != nil && at.Op == "alloc" {
 		e = at.Env // values stored into the cell are evaluated in the environment that created it
 	}
 	ci := tb.cell(a)
+	live := tb.liveStores(a, ci, path)
 	var alts []*Term
-	partial := false
-	for _, s := range ci.stores {
+	subFields := map[string]bool{}
+	partial, okStruct := false, true
+	for _, s := range live {
 		switch {
 		case pathHasPrefix(path, s.path):
-			// store to this path or to an enclosing object: project
 			var t *Term
 			if s.ext != "" && s.val == nil {
 				t = mk("written", s.ext)
@@ -830,50 +888,31 @@ func (tb *TB) cellContent(a *ssa.Alloc, at *Term, path []string, e *Env) *Term {
 			alts = append(alts, t)
 		case pathHasPrefix(s.path, path):
 			partial = true
+			nxt := s.path[len(path)]
+			if strings.HasPrefix(nxt, "[") {
+				okStruct = false
+			}
+			subFields[nxt] = true
 		}
 	}
 	if partial {
-		// stores to sub-components: build a struct view when all are field stores one level down
-		fields := map[string][]*Term{}
-		okStruct := true
-		for _, s := range ci.stores {
-			if pathHasPrefix(s.path, path) && len(s.path) > len(path) {
-				if len(s.path) != len(path)+1 || strings.HasPrefix(s.path[len(path)], "[") {
-					okStruct = false
-					break
-				}
-				var t *Term
-				if s.ext != "" && s.val == nil {
-					t = mk("written", s.ext)
-				} else {
-					t = tb.Val(s.val, e)
-				}
-				fields[s.path[len(path)]] = append(fields[s.path[len(path)]], t)
-			}
+		if !okStruct {
+			return mk("mem", at.Sym+"."+strings.Join(path, "."))
 		}
-		if okStruct {
-			names := make([]string, 0, len(fields))
-			for n := range fields {
-				names = append(names, n)
-			}
-			sort.Strings(names)
-			st := mk("struct", strings.Join(names, ","))
-			for _, n := range names {
-				fa := fields[n]
-				if len(alts) > 0 {
-					for _, base := range alts {
-						fa = append(fa, tb.fieldOf(base, n, e))
-					}
-				}
-				st.Args = append(st.Args, mkPhi(fa))
-			}
-			if len(alts) > 0 {
-				st.Op = "structover"
-				st.Args = append(st.Args, mkPhi(alts))
-			}
-			return st
+		names := make([]string, 0, len(subFields))
+		for n := range subFields {
+			names = append(names, n)
 		}
-		return mk("mem", at.Sym+"."+strings.Join(path, "."))
+		sort.Strings(names)
+		st := mk("struct", strings.Join(names, ","))
+		for _, n := range names {
+			st.Args = append(st.Args, tb.cellContent(a, at, append(append([]string(nil), path...), n), e))
+		}
+		if len(alts) > 0 {
+			st.Op = "structover"
+			st.Args = append(st.Args, mkPhi(alts))
+		}
+		return st
 	}
 	if len(alts) == 0 {
 		return mk("zero", at.Sym+"."+strings.Join(path, "."))
